@@ -532,6 +532,12 @@ impl<K: VKey + Clone, const S: bool> Set<K, S> {
         self.m.contains_key(k)
     }
 }
+impl<K: PartialOrd + VKey + Clone, const S: bool> Set<K, S> {
+    /// items of `self` that are not in `other`, in `self`'s iteration order
+    pub fn difference<'a>(&'a self, other: &'a Set<K, S>) -> impl Iterator<Item = &'a K> + 'a {
+        self.iter().filter(move |k| !other.contains(*k))
+    }
+}
 impl<K: PartialOrd, const S: bool> Set<K, S> {
     pub fn iter(&self) -> impl Iterator<Item = &K> + '_ {
         self.m.iter().map(|(k, _)| k)
